@@ -36,7 +36,7 @@ try:
     out = {}
     import concurrent.futures
     def runp(p):
-        pr = subprocess.Popen("cd /verif && VERIF_REPO=%s VERIF_SCRATCH=/tmp timeout 1800 bin/check %s 2>&1" % (wt, p), shell=True,
+        pr = subprocess.Popen("cd /verif && VERIF_REPO=%s VERIF_SCRATCH=/tmp VERIF_EVIDENCE_DIR=/tmp/seed-evidence VERIF_REPLAY_DIR=/tmp/seed-replays timeout 1800 bin/check %s 2>&1" % (wt, p), shell=True,
                               stdout=subprocess.PIPE, text=True)
         o, _ = pr.communicate()
         return p, pr, o
